@@ -13,9 +13,16 @@
 (* (a change that looks like a data-race repair, since the mode is protected by the    *)
 (* mutex); TLC then returns the interleaving, which the C18 scenario                   *)
 (* smart-stop-inflight replays on the real code with a gate in GetFileSize.            *)
+(*                                                                                  *)
+(* The caller's context may also end before Stop is called: the monitor leaves, the   *)
+(* rebalancer is still started, and the later Stop must still switch the background    *)
+(* work off.  CODE_MonitorClearsStarted = TRUE lets the leaving monitor mark the       *)
+(* rebalancer as stopped (which makes the later Stop return at once): TLC returns      *)
+(* ParentCancel, Exit, Stop with the background work still running - replayed by the   *)
+(* scenario smart-parent-cancel.                                                      *)
 EXTENDS Naturals, TLC
 
-CONSTANTS MaxTicks, CODE_StopReadsModeEarly
+CONSTANTS MaxTicks, CODE_StopReadsModeEarly, CODE_MonitorClearsStarted
 
 VARIABLES mode,      \* "none" | "incr": current mode (under the mutex)
           bg,        \* the B-tree's background rebalancing is running
@@ -23,31 +30,39 @@ VARIABLES mode,      \* "none" | "incr": current mode (under the mutex)
           cancelled, \* the monitor's context
           stop,      \* Stop call: "idle" | "wait" | "after" | "done"
           seen,      \* the mode Stop acts on
+          started,   \* the rebalancer counts as started (Stop returns at once otherwise)
           ticks
-vars == <<mode, bg, mon, cancelled, stop, seen, ticks>>
+vars == <<mode, bg, mon, cancelled, stop, seen, started, ticks>>
 
-Init == mode = "none" /\ bg = FALSE /\ mon = "loop" /\ cancelled = FALSE /\ stop = "idle" /\ seen = "none" /\ ticks = 0
+Init == mode = "none" /\ bg = FALSE /\ mon = "loop" /\ cancelled = FALSE /\ stop = "idle" /\ seen = "none" /\ started = TRUE /\ ticks = 0
 
 \* monitor: tick -> evaluate (slow, outside the lock) -> switch (under the lock) -> loop; exits when cancelled
-Tick   == mon = "loop" /\ ~cancelled /\ ticks < MaxTicks /\ mon' = "eval" /\ ticks' = ticks + 1 /\ UNCHANGED <<mode, bg, cancelled, stop, seen>>
-Eval   == mon = "eval" /\ mon' = "switch" /\ UNCHANGED <<mode, bg, cancelled, stop, seen, ticks>>
+Tick   == mon = "loop" /\ ~cancelled /\ ticks < MaxTicks /\ mon' = "eval" /\ ticks' = ticks + 1 /\ UNCHANGED <<mode, bg, cancelled, stop, seen, started>>
+Eval   == mon = "eval" /\ mon' = "switch" /\ UNCHANGED <<mode, bg, cancelled, stop, seen, started, ticks>>
 Switch == /\ mon = "switch" /\ mon' = "loop"
           /\ \E m \in {"none", "incr"} : mode' = m /\ bg' = (IF m = "incr" THEN TRUE ELSE IF mode = "incr" THEN FALSE ELSE bg)
-          /\ UNCHANGED <<cancelled, stop, seen, ticks>>
-Exit   == mon = "loop" /\ cancelled /\ mon' = "off" /\ UNCHANGED <<mode, bg, cancelled, stop, seen, ticks>>
+          /\ UNCHANGED <<cancelled, stop, seen, started, ticks>>
+Exit   == /\ mon = "loop" /\ cancelled /\ mon' = "off"
+          /\ started' = IF CODE_MonitorClearsStarted THEN FALSE ELSE started
+          /\ UNCHANGED <<mode, bg, cancelled, stop, seen, ticks>>
+\* the context the caller passed to Start ends (before Stop is called)
+ParentCancel == stop = "idle" /\ ~cancelled /\ cancelled' = TRUE /\ UNCHANGED <<mode, bg, mon, stop, seen, started, ticks>>
 
 \* Stop: cancel under the lock (reading the mode there if the code does so), wait for the monitor, act on the mode
-StopBegin == /\ stop = "idle" /\ stop' = "wait" /\ cancelled' = TRUE
-             /\ seen' = IF CODE_StopReadsModeEarly THEN mode ELSE seen
-             /\ UNCHANGED <<mode, bg, mon, ticks>>
+StopBegin == /\ stop = "idle"
+             /\ IF started
+                THEN /\ stop' = "wait" /\ cancelled' = TRUE
+                     /\ seen' = IF CODE_StopReadsModeEarly THEN mode ELSE seen
+                ELSE stop' = "done" /\ UNCHANGED <<cancelled, seen>>        \* "not started": nothing to do
+             /\ UNCHANGED <<mode, bg, mon, started, ticks>>
 StopWaited == /\ stop = "wait" /\ mon = "off" /\ stop' = "after"
               /\ seen' = IF CODE_StopReadsModeEarly THEN seen ELSE mode
-              /\ UNCHANGED <<mode, bg, mon, cancelled, ticks>>
-StopAct == /\ stop = "after" /\ stop' = "done"
+              /\ UNCHANGED <<mode, bg, mon, cancelled, started, ticks>>
+StopAct == /\ stop = "after" /\ stop' = "done" /\ started' = FALSE
            /\ bg' = IF seen = "incr" THEN FALSE ELSE bg
            /\ UNCHANGED <<mode, mon, cancelled, seen, ticks>>
 
-Next == Tick \/ Eval \/ Switch \/ Exit \/ StopBegin \/ StopWaited \/ StopAct \/ (stop = "done" /\ UNCHANGED vars)
+Next == Tick \/ Eval \/ Switch \/ Exit \/ ParentCancel \/ StopBegin \/ StopWaited \/ StopAct \/ (stop = "done" /\ UNCHANGED vars)
 Spec == Init /\ [][Next]_vars /\ WF_vars(Eval \/ Switch \/ Exit \/ StopWaited \/ StopAct)
 
 \* C18: after Stop has returned no background work is running, and the monitor is gone
